@@ -1034,11 +1034,11 @@ Proof.
       * unfold sW. destruct v as [x0 isr| |]; auto; try (destruct isr); rewrite ?set_alloc_tags; auto;
           rewrite set_tags_get, PT, N.eqb_refl, ?set_alloc_tags; apply tg_join; auto.
   - intros Off w. cbn [r_tags set_rgn]. rewrite TGOFF by auto. apply (r_toff _ _ R); auto.
-  - intros g' x Hx. cbn in *.
+  - intros g' x Hx. cbn [c_hp c_htg] in *.
     destruct (N.eq_dec g' g) as [->|N].
     + destruct (Z.eq_dec x a0) as [->|Nx]; [rewrite hupd_same in Hx; discriminate|].
-      rewrite hupd_other_addr in * by auto. apply (r_tuw _ _ R); auto.
-    + rewrite hupd_other_rgn in * by auto. apply (r_tuw _ _ R); auto.
+      rewrite hupd_other_addr in Hx by auto. rewrite hupd_other_addr by auto. apply (r_tuw _ _ R); auto.
+    + rewrite hupd_other_rgn in Hx by auto. rewrite hupd_other_rgn by auto. apply (r_tuw _ _ R); auto.
 Qed.
 End WithKinds.
 
